@@ -78,6 +78,29 @@ Proof. intros b; destruct b; vm_compute; reflexivity. Qed.
 Lemma flags_hex_is_lower_hex : forall f, flags_hex f = byte_to_lower_hex f.
 Proof. intros f; destruct f; vm_compute; reflexivity. Qed.
 
+(* the same for TraceId/SpanId::ToLowerBase16 and the tables of trace_id.h / span_id.h *)
+Lemma trace_id_table_byte : forall b, id_hex kTraceIdHexTable [b] = byte_to_lower_hex b.
+Proof. intros b; destruct b; vm_compute; reflexivity. Qed.
+Lemma span_id_table_byte : forall b, id_hex kSpanIdHexTable [b] = byte_to_lower_hex b.
+Proof. intros b; destruct b; vm_compute; reflexivity. Qed.
+
+Lemma id_hex_is_lower_hex : forall tbl, (forall b, id_hex tbl [b] = byte_to_lower_hex b) ->
+  forall l, id_hex tbl l = to_lower_hex l.
+Proof.
+  intros tbl H. induction l as [|b l IH]; [reflexivity|].
+  specialize (H b). cbn [id_hex] in H. injection H as H1 H2.
+  cbn [id_hex to_lower_hex byte_to_lower_hex app]. now rewrite H1, H2, IH.
+Qed.
+
+Lemma trace_id_hex_is_lower_hex : forall l, id_hex kTraceIdHexTable l = to_lower_hex l.
+Proof. exact (id_hex_is_lower_hex _ trace_id_table_byte). Qed.
+Lemma span_id_hex_is_lower_hex : forall l, id_hex kSpanIdHexTable l = to_lower_hex l.
+Proof. exact (id_hex_is_lower_hex _ span_id_table_byte). Qed.
+
+Lemma id_tables_lower_case : forall l,
+  id_hex kTraceIdHexTable l = to_lower_hex l /\ id_hex kSpanIdHexTable l = to_lower_hex l.
+Proof. intros l. split; [apply trace_id_hex_is_lower_hex | apply span_id_hex_is_lower_hex]. Qed.
+
 (* ---------- (int8 << 4) | int8 for two valid digits *)
 
 Lemma lor_nibbles : forall x y, (x < 16)%N -> (y < 16)%N ->
